@@ -6,7 +6,7 @@ name list), and builds `zvc`, isolating generated modules that do not compile.
     corpora.py <seed> <quick|thorough>      (used by bin/setup; bin/props.py calls `generate`)
 
 Result (also returned by `generate`): {"cg_failed": {idx: {"where": "generated"|"exercise", "error": ...}},
-"in_failed": {...}, "notes": [...], "ok": bool}."""
+"in_failed": {...}, "px_failed": {...}, "notes": [...], "ok": bool}."""
 import os, sys, re, subprocess, json, itertools
 
 VERIF = os.path.dirname(os.path.dirname(os.path.abspath(__file__)))
@@ -68,7 +68,7 @@ def cargo_build(package):
 def generate(seed, tier):
     import gen_cg
     n = sizes(tier)
-    res = {"cg_failed": {}, "in_failed": {}, "notes": [], "ok": True, "sizes": n}
+    res = {"cg_failed": {}, "in_failed": {}, "px_failed": {}, "notes": [], "ok": True, "sizes": n}
     py = sys.executable
     subprocess.run([py, os.path.join(CORPUS, "gen_proxy.py"), str(seed), str(n["proxy"]), os.path.join(ZVC_SRC, "gen_proxy.rs")], check=True)
     idl_dir = os.path.join(ZVC, "cg")
@@ -102,7 +102,8 @@ def generate(seed, tier):
     # build, isolating generated modules that do not compile
     skip = set()
     iskip = set()
-    for attempt in range(10):
+    pskip = set()
+    for attempt in range(12):
         rc, out = cargo_build("zvc")
         if rc == 0:
             break
@@ -123,6 +124,23 @@ def generate(seed, tier):
             for r in ranges:
                 if r["start"] <= ln <= r["end"] and r["idx"] not in ibad:
                     ibad[r["idx"]] = {"error": m.group(1), "at": f"gen_intro.rs:{ln}", "decl": r["decl"]}
+        # proxy corpus: one file, one module per trait, located by line
+        pbad = {}
+        try:
+            pranges = json.load(open(os.path.join(ZVC_SRC, "gen_proxy.lines.json")))
+        except OSError:
+            pranges = []
+        for m in re.finditer(r"^(error[^\n]*)\n\s*--> zvc/src/gen_proxy\.rs:(\d+):(\d+)", out, re.M):
+            ln = int(m.group(2))
+            for r in pranges:
+                if r["start"] <= ln <= r["end"] and r["idx"] not in pbad:
+                    pbad[r["idx"]] = {"error": m.group(1), "at": f"gen_proxy.rs:{ln}", "decl": r["decl"]}
+        pnew = set(pbad) - pskip
+        if pnew:
+            for idx in pnew:
+                res["px_failed"][idx] = pbad[idx]
+            pskip |= pnew
+            subprocess.run([py, os.path.join(CORPUS, "gen_proxy.py"), str(seed), str(n["proxy"]), os.path.join(ZVC_SRC, "gen_proxy.rs"), ",".join(str(x) for x in sorted(pskip))], check=True)
         inew = set(ibad) - iskip
         if inew:
             for idx in inew:
@@ -130,7 +148,7 @@ def generate(seed, tier):
             iskip |= inew
             subprocess.run([py, os.path.join(CORPUS, "gen_intro.py"), str(seed), str(n["intro"]), ZVC_SRC, ",".join(str(x) for x in sorted(iskip))], check=True)
         new = set(bad) - skip
-        if not new and inew:
+        if not new and (inew or pnew):
             continue
         if not new:
             res["ok"] = False
